@@ -93,16 +93,26 @@ func optBool(res string) string {
 	return "None"
 }
 
+// capsTerm prints TX.0-9 with trailing empty entries dropped (they always exist: a new
+// transaction sets them to ""); an absent entry is printed as "<absent>" and never matches.
 func capsTerm(c []*string) string {
 	items := make([]string, len(c))
 	for i, p := range c {
 		if p == nil {
-			items[i] = "None"
+			items[i] = "<absent>"
 		} else {
-			items[i] = "(Some " + vh.HxS(unhx(*p)) + ")"
+			items[i] = unhx(*p)
 		}
 	}
-	return vh.List(items)
+	return vh.HxList(trimEmpties(items))
+}
+
+func trimEmpties(l []string) []string {
+	n := len(l)
+	for n > 0 && l[n-1] == "" {
+		n--
+	}
+	return l[:n]
 }
 
 func txTerm(txv [][2]string) string {
@@ -145,7 +155,6 @@ type runner struct {
 	seen     map[string]bool
 	nontriv  int
 	oracleN  int
-	emptyPm  bool
 }
 
 func (r *runner) fail(key, what string, c any) {
@@ -203,15 +212,6 @@ func (r *runner) runMop(opName, arg string, txv [][2]string, value string) {
 	r.emit(term, cj, cj.Res == "true" || cj.Res == "error", "mop_"+opName+"_"+cj.Res)
 }
 
-func hasEmptyPhrase(ps []string) bool {
-	for _, p := range ps {
-		if p == "" {
-			return true
-		}
-	}
-	return false
-}
-
 func (r *runner) pmCommon(kind string, op plugintypes.Operator, cj *caseJSON, value string, capture bool, head string) {
 	tx := newTx(capture, nil)
 	b, ok := r.evalSafe(op, tx, value, cj)
@@ -234,17 +234,17 @@ func (r *runner) runPm(arg, value string, capture bool) {
 	}
 	r.pmCommon("pm", op, cj, value, capture, fmt.Sprintf("CPm %s %s", lowerTable(arg), vh.HxS(arg)))
 	// implementation-side oracle (ASCII arguments): the documented predicate itself
-	if isASCII(arg) && !hasEmptyPhrase(strings.Split(arg, " ")) {
+	if isASCII(arg) {
 		r.oracleN++
 		want := false
 		lv := asciiLower(value)
 		for _, p := range strings.Split(arg, " ") {
-			if strings.Contains(lv, asciiLower(p)) {
+			if p != "" && strings.Contains(lv, asciiLower(p)) {
 				want = true
 			}
 		}
 		if want != (cj.Res == "true") {
-			r.fail("c15-pm-predicate", "@pm differs from 'some phrase occurs ASCII-case-insensitively'", cj)
+			r.fail("c15-pm-predicate", "@pm differs from 'some non-empty phrase occurs ASCII-case-insensitively'", cj)
 		}
 	}
 }
@@ -435,7 +435,7 @@ func (r *runner) runRule(optext string, txv [][2]string, value string, capture b
 		}
 		tx.ProcessLogging()
 		tx.Close()
-		obs = fmt.Sprintf("(Some (%s, %s, %s))", vh.Bool(matched), capsTerm(cj.Caps), vh.HxList(copies))
+		obs = fmt.Sprintf("(Some (%s, %s, %s))", vh.Bool(matched), capsTerm(cj.Caps), vh.HxList(trimEmpties(copies)))
 		nontrivial = matched
 	}
 	term := fmt.Sprintf("CRule %s %s %s %s %s %s %s", vh.HxS(optext), ltbl, rxm, vh.Bool(capture), txTerm(txv), vh.HxS(value), obs)
